@@ -2868,7 +2868,10 @@ func ruleNoNarrowArithmeticBeforeWidening(w *World, r *Report, rule string, entr
 // connection built on it), except where the error itself says the carrier is closed already — and only that:
 // "the peer went away" (EOF, reset) leaves OUR end open, a socket in CLOSE_WAIT per probe.
 func c14AcceptFailureClosesCarrier(w *World, r *Report) {
-	rule := "R14.8"
+	ruleAcceptFailureClosesCarrier(w, r, "R14.8")
+}
+
+func ruleAcceptFailureClosesCarrier(w *World, r *Report, rule string) {
 	fn := w.SSAFunc(w.Func("internal/server", "AcceptConnection"))
 	key := "func:server.AcceptConnection|failure-closes-carrier"
 	if fn == nil || len(fn.Params) == 0 {
@@ -4489,4 +4492,812 @@ func helperLengthPrecondition(w *World, fn *ssa.Function) string {
 		}
 	}
 	return ""
+}
+
+// c19SafeCtorNeverRewrapsInner: R19.7 — a close-once wrapper owns ONE flag for one resource. A NewSafe* constructor
+// that is handed such a wrapper hands it back; it never builds a second wrapper around the first one's raw
+// resource (`&SafeConnection{Conn: scs.Conn}`): two flags would guard one resource and the second Close closes
+// it again.
+func c19SafeCtorNeverRewrapsInner(w *World, r *Report) {
+	rule := "R19.7"
+	p := w.Pkg("internal/streams")
+	if p == nil {
+		r.Undecided(rule, "anchor", "-", "anchor unresolved: package streams")
+		return
+	}
+	n := 0
+	for _, fn := range pkgFuncs(w, "/internal/streams") {
+		if fn.Parent() != nil || fn.Signature.Recv() != nil || !strings.HasPrefix(fn.Name(), "NewSafe") {
+			continue
+		}
+		n++
+		key := "func:" + ssaFuncKey(fn) + "|no-rewrap"
+		bad := ""
+		allInstrs(fn, func(in ssa.Instruction) {
+			st, ok := in.(*ssa.Store)
+			if !ok || bad != "" {
+				return
+			}
+			fa, ok := st.Addr.(*ssa.FieldAddr)
+			if !ok {
+				return
+			}
+			// a store into a field of a freshly allocated wrapper ...
+			if _, isAlloc := fa.X.(*ssa.Alloc); !isAlloc {
+				return
+			}
+			// ... of a value read from a field of another wrapper of the package (x.Conn, x.inner)
+			for _, root := range provenance(st.Val, provOpts{}) {
+				u, ok := root.(*ssa.UnOp)
+				if !ok {
+					continue
+				}
+				fa2, ok := u.X.(*ssa.FieldAddr)
+				if !ok {
+					continue
+				}
+				t := fa2.X.Type()
+				if pt, ok := t.Underlying().(*types.Pointer); ok {
+					t = pt.Elem()
+				}
+				if nt, ok := t.(*types.Named); ok && nt.Obj().Pkg() == p.Types && strings.HasPrefix(nt.Obj().Name(), "Safe") {
+					bad = fmt.Sprintf("%s: the constructor wraps the raw resource taken out of an existing %s (field %s) in a new wrapper: two closed flags guard one resource — the second Close closes it again and reports the resource's 'already closed' error", w.Pos(st.Pos()), nt.Obj().Name(), fieldVarOf(fa2).Name())
+				}
+			}
+		})
+		r.Check(bad == "", rule, key, w.Pos(fn.Pos()), "an existing close-once wrapper is handed back as it is, never unwrapped into a second one", bad)
+	}
+	if n == 0 {
+		r.Undecided(rule, "ctors", "-", "no NewSafe* constructor found")
+	}
+}
+
+// c12SessionsShareNoListenerState: R12.13 — a session object never holds a pointer into the listener object: what
+// is per session (codec options, fragment size, flags) is a copy. `Serializer: &s.DefaultSerializer` makes every
+// session's set-options query rewrite the options of all the others and of the listener's defaults.
+func c12SessionsShareNoListenerState(w *World, r *Report, rule string) {
+	sl := w.Named("internal/streams/dns", "ServerDnsListener")
+	uc := w.Named("internal/streams/dns", "userConnection")
+	key := "type:streams/dns.userConnection|no-pointer-into-listener"
+	if sl == nil || uc == nil {
+		r.Undecided(rule, key, "-", "anchor unresolved")
+		return
+	}
+	bad := ""
+	n := 0
+	for _, fn := range pkgFuncs(w, "/internal/streams/dns") {
+		allInstrs(fn, func(in ssa.Instruction) {
+			st, ok := in.(*ssa.Store)
+			if !ok || bad != "" {
+				return
+			}
+			fa, ok := st.Addr.(*ssa.FieldAddr)
+			if !ok || !recvIs(fa, uc) {
+				return
+			}
+			n++
+			// the address of a field of the listener (not a copy of its value)
+			for _, root := range provenance(st.Val, provOpts{}) {
+				if fa2, ok := root.(*ssa.FieldAddr); ok && recvIs(fa2, sl) {
+					if _, isPtr := st.Val.Type().Underlying().(*types.Pointer); isPtr {
+						bad = fmt.Sprintf("%s: the session's field %s is given the ADDRESS of the listener's %s: all sessions share it — one peer's set-options query changes the codecs, fragment size and flags of every other session (their next query is decoded with the wrong codec) and of the defaults new sessions start with", w.Pos(st.Pos()), fieldVarOf(fa).Name(), fieldVarOf(fa2).Name())
+					}
+				}
+			}
+		})
+	}
+	r.Check(bad == "" && n > 0, rule, key, w.Pos(uc.Obj().Pos()), fmt.Sprintf("%d store(s) into session fields, none of a pointer into the listener", n), bad+mapStr(n == 0, "no store into a session object found"))
+}
+
+// c13NewSessionTakesEmptySlotOnly: R13.11 — a new session is stored into the live table only at an index whose live
+// entry has just been found nil: every non-nil store `connections[i] = u` is dominated by the true edge of
+// `connections[i] == nil` (same index), or `i` comes from a scan whose loop body established it.
+func c13NewSessionTakesEmptySlotOnly(w *World, r *Report) {
+	rule := "R13.11"
+	sl := w.Named("internal/streams/dns", "ServerDnsListener")
+	uc := w.Named("internal/streams/dns", "userConnection")
+	key := "type:streams/dns.ServerDnsListener|store-into-empty-slot"
+	if sl == nil || uc == nil {
+		r.Undecided(rule, key, "-", "anchor unresolved")
+		return
+	}
+	live := fieldByType(sl, func(t types.Type) bool {
+		slc, ok := t.(*types.Slice)
+		if !ok {
+			return false
+		}
+		pt, ok := slc.Elem().(*types.Pointer)
+		return ok && types.Identical(pt.Elem(), uc)
+	})
+	if live == nil {
+		r.Undecided(rule, key, "-", "live session table not found")
+		return
+	}
+	n := 0
+	bad := ""
+	for _, fn := range pkgFuncs(w, "/internal/streams/dns") {
+		allInstrs(fn, func(in ssa.Instruction) {
+			st, ok := in.(*ssa.Store)
+			if !ok || isConstNil(st.Val) || bad != "" {
+				return
+			}
+			ia, ok := st.Addr.(*ssa.IndexAddr)
+			if !ok || !isLoadOfFieldDeep(ia.X, live) {
+				return
+			}
+			n++
+			// a dominating `live[idx] == nil` (true edge) on the same index value, or on the loop's element for a
+			// range loop (`for i, u := range live { if u == nil {`): the element value is the load of live[i]
+			emptyTest := func(g *ssa.Function, idx ssa.Value, wantEq bool) func(v ssa.Value) bool {
+				idxRoots := provenance(idx, provOpts{})
+				return func(v ssa.Value) bool {
+					x, eqNil, ok := nilTest(v)
+					if !ok || eqNil != wantEq {
+						return false
+					}
+					for _, root := range provenance(x, provOpts{}) {
+						u, ok := root.(*ssa.UnOp)
+						if !ok {
+							continue
+						}
+						ia2, ok := u.X.(*ssa.IndexAddr)
+						if !ok || !isLoadOfFieldDeep(ia2.X, live) {
+							continue
+						}
+						if ia2.Index == idx {
+							return true
+						}
+						for _, r1 := range idxRoots {
+							for _, r2 := range provenance(ia2.Index, provOpts{}) {
+								if r1 == r2 {
+									return true
+								}
+							}
+						}
+					}
+					return false
+				}
+			}
+			foundEmptyAt := func(g *ssa.Function, at ssa.Instruction, idx ssa.Value) bool {
+				// `live[idx] == nil` on its true edge, or `live[idx] != nil` on its false edge (`if taken { continue }`)
+				return dominatedByCond(g, at, emptyTest(g, idx, true), true) || dominatedByCond(g, at, emptyTest(g, idx, false), false)
+			}
+			okEmpty := foundEmptyAt(fn, st, ia.Index)
+			// the index comes out of a helper that returns only indexes of empty slots (or a negative "none")
+			if !okEmpty {
+				for _, root := range provenance(ia.Index, provOpts{}) {
+					hc, ok := root.(*ssa.Call)
+					if !ok {
+						continue
+					}
+					h := hc.Call.StaticCallee()
+					if h == nil || !inModule(h) || len(h.Blocks) == 0 || h.Signature.Results().Len() != 1 {
+						continue
+					}
+					all, nret := true, 0
+					allInstrs(h, func(in2 ssa.Instruction) {
+						ret, ok := in2.(*ssa.Return)
+						if !ok || len(ret.Results) != 1 {
+							return
+						}
+						if k, isC := constIntVal(ret.Results[0]); isC && k < 0 {
+							return // "none"
+						}
+						nret++
+						if !foundEmptyAt(h, ret, ret.Results[0]) {
+							all = false
+						}
+					})
+					if all && nret > 0 {
+						okEmpty = true
+					}
+				}
+			}
+			if !okEmpty {
+				bad = fmt.Sprintf("%s: a session is stored into the live table at an index whose live entry was not found empty on this path (the index was chosen by looking at something else, e.g. the retired table): a live session that occupies the slot is overwritten — two peers hold one identifier, and the evicted one is answered BADIP for ever", w.Pos(st.Pos()))
+			}
+		})
+	}
+	r.Check(bad == "" && n > 0, rule, key, w.Pos(sl.Obj().Pos()), fmt.Sprintf("%d store(s) of a session into the live table, each under 'this slot is empty'", n), bad+mapStr(n == 0, "no store into the live table found"))
+}
+
+// c07WaitersWokenOnlyOnTheirCondition: R07.22 — the queues' waiters take ANY wake-up for "the condition I was
+// waiting for holds" (`waitEmptyQueue` returns nil: the write is complete). The waiter callbacks may therefore be
+// called only where that condition has just been established: under a test derived from the length of the queue's
+// buffer. A wake-up from anywhere else (a deadline setter, a close) completes a blocked Write whose chunks are
+// still unacknowledged: a write reported as successful that was not delivered.
+func c07WaitersWokenOnlyOnTheirCondition(w *World, r *Report) {
+	rule := "R07.22"
+	fns := pkgFuncs(w, "/internal/streams/dns/util")
+	reachesLen := func(cond ssa.Value, not map[*types.Var]bool) bool {
+		found := false
+		seen := map[ssa.Value]bool{}
+		var walk func(v ssa.Value, d int)
+		walk = func(v ssa.Value, d int) {
+			if v == nil || d > 10 || seen[v] || found {
+				return
+			}
+			seen[v] = true
+			if c, ok := v.(*ssa.Call); ok {
+				if b, ok := c.Call.Value.(*ssa.Builtin); ok && b.Name() == "len" && len(c.Call.Args) == 1 {
+					for _, root := range provenance(c.Call.Args[0], provOpts{}) {
+						if fa := asFieldAddr(root); fa != nil {
+							if _, isSlice := fieldVarOf(fa).Type().Underlying().(*types.Slice); isSlice && !not[fieldVarOf(fa)] {
+								found = true
+							}
+						}
+						if u, ok := root.(*ssa.UnOp); ok {
+							if fa, ok := u.X.(*ssa.FieldAddr); ok {
+								if _, isSlice := fieldVarOf(fa).Type().Underlying().(*types.Slice); isSlice && !not[fieldVarOf(fa)] {
+									found = true
+								}
+							}
+						}
+					}
+				}
+			}
+			if in, ok := v.(ssa.Instruction); ok {
+				for _, op := range in.Operands(nil) {
+					if *op != nil {
+						walk(*op, d+1)
+					}
+				}
+			}
+		}
+		walk(cond, 0)
+		return found
+	}
+	underLenTest := func(g *ssa.Function, at ssa.Instruction, not map[*types.Var]bool) bool {
+		for _, b := range g.Blocks {
+			ifi, ok := b.Instrs[len(b.Instrs)-1].(*ssa.If)
+			if !ok {
+				continue
+			}
+			for si := 0; si < 2; si++ {
+				if edgeDominates(b, si, at.Block()) && reachesLen(ifi.Cond, not) {
+					return true
+				}
+			}
+		}
+		return false
+	}
+	n := 0
+	var bad []string
+	for _, fn := range fns {
+		for _, c := range callsIn(fn) {
+			cc := c.Common()
+			if cc.IsInvoke() || cc.StaticCallee() != nil {
+				continue
+			}
+			lists := calledListFields(w, fns, fn, c)
+			if len(lists) == 0 {
+				continue
+			}
+			n++
+			ci := c.(ssa.Instruction)
+			not := map[*types.Var]bool{} // the length of the waiter list itself (the range loop's own test) says nothing
+			for _, l := range lists {
+				not[l.f] = true
+			}
+			ok := underLenTest(fn, ci, not)
+			if !ok {
+				// a helper that is handed the list: every call site of the helper is under the test
+				obj := fnObj(fn)
+				ncall, all := 0, true
+				for _, g := range fns {
+					for _, c2 := range callsIn(g) {
+						if obj != nil && sCallee(c2) == obj {
+							ncall++
+							if !underLenTest(g, c2.(ssa.Instruction), not) {
+								all = false
+							}
+						}
+					}
+				}
+				ok = ncall > 0 && all
+			}
+			if !ok {
+				bad = append(bad, fmt.Sprintf("%s: %s calls the queue's waiter callbacks without having tested the queue's buffer: a waiter takes any wake-up for 'my condition holds' — a Write blocked on unacknowledged chunks returns (len, nil) and the caller's write-then-close drops them", w.Pos(c.Pos()), ssaFuncKey(fn)))
+			}
+		}
+	}
+	sort.Strings(bad)
+	r.Check(len(bad) == 0 && n > 0, rule, "pkg:streams/dns/util|waiters-woken-on-condition", "-", fmt.Sprintf("%d place(s) call waiter callbacks, each under a test of the queue's buffer length", n), strings.Join(bad, "; ")+mapStr(n == 0, "no call of a waiter callback found"))
+}
+
+// c18ShutdownAfterFailedStartupIsSafe: R18.12 — a malformed server address makes Startup return an error with the
+// server object half initialised (fields Startup assigns late are still nil). Shutdown implementations that use
+// such a pointer field without a nil test are fine as long as Shutdown is only reached after a successful Startup.
+// The rule: no call that leads to server.Server.Shutdown stands on the failing edge of a call that leads to
+// server.Server.Startup, unless every Shutdown implementation tests the pointer fields it dereferences.
+func c18ShutdownAfterFailedStartupIsSafe(w *World, r *Report) {
+	rule := "R18.12"
+	key := "iface:server.Server|shutdown-after-failed-startup"
+	si := w.Interface("internal/server", "Server")
+	if si == nil {
+		r.Undecided(rule, key, "-", "anchor unresolved: server.Server")
+		return
+	}
+	iface := si.Underlying().(*types.Interface)
+	// Shutdown implementations that dereference a pointer field of the receiver without a nil test
+	var unsafe []string
+	nimpl := 0
+	seenM := map[*types.Func]bool{}
+	for _, n := range w.Implementers(si) {
+		m := methodOf(n, "Shutdown")
+		if m == nil || seenM[m] {
+			continue
+		}
+		seenM[m] = true
+		fn := w.SSAFunc(m)
+		if fn == nil || len(fn.Params) == 0 {
+			continue
+		}
+		nimpl++
+		recv := fn.Params[0]
+		ptrFieldLoad := func(v ssa.Value) *ssa.FieldAddr {
+			u, ok := v.(*ssa.UnOp)
+			if !ok || u.Op != token.MUL {
+				return nil
+			}
+			fa, ok := u.X.(*ssa.FieldAddr)
+			if !ok || fa.X != ssa.Value(recv) {
+				return nil
+			}
+			if _, isPtr := u.Type().Underlying().(*types.Pointer); !isPtr {
+				return nil
+			}
+			return fa
+		}
+		allInstrs(fn, func(in ssa.Instruction) {
+			var used ssa.Value
+			switch x := in.(type) {
+			case *ssa.Call:
+				if !x.Call.IsInvoke() && x.Call.Signature().Recv() != nil && len(x.Call.Args) > 0 {
+					used = x.Call.Args[0]
+				}
+			case *ssa.FieldAddr:
+				used = x.X
+			case *ssa.UnOp:
+				if x.Op == token.MUL {
+					if _, isLoadOfPtr := x.X.(*ssa.FieldAddr); !isLoadOfPtr {
+						used = x.X
+					}
+				}
+			}
+			if used == nil {
+				return
+			}
+			fa := ptrFieldLoad(used)
+			if fa == nil {
+				return
+			}
+			fv := fieldVarOf(fa)
+			guarded := dominatedByNonNil(fn, in, func(x ssa.Value) bool {
+				f2 := ptrFieldLoad(x)
+				return f2 != nil && fieldVarOf(f2) == fv
+			})
+			if !guarded {
+				unsafe = append(unsafe, fmt.Sprintf("%s uses its field %s without a nil test (%s)", ssaFuncKey(fn), fv.Name(), w.Pos(in.Pos())))
+			}
+		})
+	}
+	sort.Strings(unsafe)
+	unsafe = uniqStrings(unsafe)
+	// which module functions lead to an invoke of Server.<name>?
+	mod := allModuleFuncs(w, w.SSA())
+	leadsTo := func(name string) map[*ssa.Function]bool {
+		out := map[*ssa.Function]bool{}
+		for fn := range mod {
+			for _, c := range callsIn(fn) {
+				cc := c.Common()
+				if cc.IsInvoke() && cc.Method.Name() == name && types.Implements(cc.Value.Type(), iface) {
+					out[fn] = true
+				}
+			}
+		}
+		for changed := true; changed; {
+			changed = false
+			for fn := range mod {
+				if out[fn] {
+					continue
+				}
+				for _, c := range callsIn(fn) {
+					if g := c.Common().StaticCallee(); g != nil && out[g] {
+						out[fn], changed = true, true
+						break
+					}
+				}
+				if !out[fn] {
+					for _, an := range fn.AnonFuncs {
+						if out[an] {
+							out[fn], changed = true, true
+							break
+						}
+					}
+				}
+			}
+		}
+		return out
+	}
+	starts, stops := leadsTo("Startup"), leadsTo("Shutdown")
+	var bad []string
+	nsites := 0
+	for _, fn := range sortedFuncs(mod) {
+		for _, c := range callsIn(fn) {
+			g := c.Common().StaticCallee()
+			if g == nil || !stops[g] {
+				continue
+			}
+			nsites++
+			ci := c.(ssa.Instruction)
+			// on the failing edge of a start?
+			afterFailedStart := dominatedByNonNil(fn, ci, func(x ssa.Value) bool {
+				for _, root := range provenance(x, provOpts{}) {
+					var call *ssa.Call
+					switch y := root.(type) {
+					case *ssa.Call:
+						call = y
+					case *ssa.Extract:
+						call, _ = y.Tuple.(*ssa.Call)
+					}
+					if call != nil {
+						if sg := call.Call.StaticCallee(); sg != nil && starts[sg] && !stops[sg] {
+							return true
+						}
+					}
+				}
+				return false
+			})
+			if afterFailedStart && len(unsafe) > 0 {
+				bad = append(bad, fmt.Sprintf("%s: %s shuts the servers down after a failed start, but %s: a server address that fails in Startup (missing port, unknown channel) leaves that field nil — the process dies with a nil dereference instead of reporting the configuration error", w.Pos(c.Pos()), ssaFuncKey(fn), unsafe[0]))
+			}
+		}
+	}
+	sort.Strings(bad)
+	r.Check(len(bad) == 0 && nimpl > 0, rule, key, "-", fmt.Sprintf("%d Shutdown implementation(s), %d of them rely on a started server; none of the %d call(s) leading to Shutdown stands on the failing edge of a start", nimpl, len(unsafe), nsites), strings.Join(bad, "; ")+mapStr(nimpl == 0, "no Shutdown implementation found"))
+}
+
+// dominatedByNonNil: instruction in executes only when some value accepted by isVal was tested to be non-nil.
+func dominatedByNonNil(fn *ssa.Function, in ssa.Instruction, isVal func(v ssa.Value) bool) bool {
+	for _, b := range fn.Blocks {
+		if len(b.Instrs) == 0 {
+			continue
+		}
+		ifi, ok := b.Instrs[len(b.Instrs)-1].(*ssa.If)
+		if !ok {
+			continue
+		}
+		x, eqNil, ok := nilTest(ifi.Cond)
+		if !ok || !isVal(x) {
+			continue
+		}
+		succ := 0
+		if eqNil {
+			succ = 1
+		}
+		if edgeDominates(b, succ, in.Block()) {
+			return true
+		}
+	}
+	return false
+}
+
+// regexpGlobalPattern: the constant pattern a package-level *regexp.Regexp is compiled from.
+func regexpGlobalPattern(w *World, gl *ssa.Global) (string, bool) {
+	if gl == nil || gl.Pkg == nil || gl.Pkg.Pkg == nil {
+		return "", false
+	}
+	p := w.ByPath[gl.Pkg.Pkg.Path()]
+	if p == nil {
+		return "", false
+	}
+	pat, found := "", false
+	for _, f := range p.Syntax {
+		ast.Inspect(f, func(x ast.Node) bool {
+			vs, ok := x.(*ast.ValueSpec)
+			if !ok {
+				return true
+			}
+			for i, nm := range vs.Names {
+				if p.TypesInfo.Defs[nm] == gl.Object() && i < len(vs.Values) {
+					if call, ok := vs.Values[i].(*ast.CallExpr); ok && len(call.Args) == 1 {
+						if sv, ok := constStr(p.TypesInfo, call.Args[0]); ok {
+							pat, found = sv, true
+						}
+					}
+				}
+			}
+			return true
+		})
+	}
+	return pat, found
+}
+
+// c10DotRemovalIsByContent: R10.17 — the host-name record types (MX, SRV, CNAME) carry the encoded answer cut into
+// labels; the server inserts the dots only above a label limit (`PrepareHostname`), and the client's unwrapper takes
+// them out again. The remover must decide by CONTENT (delete the bytes that are '.': the codecs' alphabets never
+// contain one), not by POSITION: a positional inverse of Dotify disagrees with the server's threshold for the
+// lengths between Dotify's step and the label limit, and drops a payload character there.
+func c10DotRemovalIsByContent(w *World, r *Report) {
+	rule := "R10.17"
+	key := "func:dns/util.UnwrapDnsResponse|dot-removal"
+	un := w.SSAFunc(w.Func("internal/streams/dns/util", "UnwrapDnsResponse"))
+	if un == nil {
+		r.Undecided(rule, key, "-", "anchor unresolved: UnwrapDnsResponse")
+		return
+	}
+	isDotOnlyPattern := func(p string) bool {
+		return p == `\.` || p == `[.]` || p == `\.+` || p == `[.]+` || p == `\x2e` || p == `\x2E`
+	}
+	isEmpty := func(v ssa.Value) bool {
+		if s, ok := constStrVal(v); ok {
+			return s == ""
+		}
+		if c, ok := v.(*ssa.Const); ok && c.Value == nil {
+			return true // nil []byte
+		}
+		if sl, ok := v.(*ssa.Slice); ok {
+			_ = sl
+		}
+		if cv, ok := v.(*ssa.Convert); ok {
+			if s, ok := constStrVal(cv.X); ok {
+				return s == ""
+			}
+		}
+		return false
+	}
+	isDot := func(v ssa.Value) bool {
+		if s, ok := constStrVal(v); ok {
+			return s == "."
+		}
+		if cv, ok := v.(*ssa.Convert); ok {
+			if s, ok := constStrVal(cv.X); ok {
+				return s == "."
+			}
+		}
+		return false
+	}
+	// classify a function body: "content" (removes dots by testing for them), "position" (cuts the input at
+	// constant offsets without looking), "" (something else)
+	classify := func(fn *ssa.Function) (string, string) {
+		kind, at := "", ""
+		positional := ""
+		allInstrs(fn, func(in ssa.Instruction) {
+			switch x := in.(type) {
+			case *ssa.Call:
+				f := sCallee(x)
+				if f == nil {
+					return
+				}
+				args := x.Call.Args
+				switch {
+				case f.Pkg() != nil && f.Pkg().Path() == "regexp" && strings.HasPrefix(f.Name(), "ReplaceAll") && len(args) == 3:
+					for _, root := range provenance(args[0], provOpts{}) {
+						var gl *ssa.Global
+						if u, ok := root.(*ssa.UnOp); ok {
+							gl, _ = u.X.(*ssa.Global)
+						}
+						if g2, ok := root.(*ssa.Global); ok {
+							gl = g2
+						}
+						if pat, ok := regexpGlobalPattern(w, gl); ok && isDotOnlyPattern(pat) && isEmpty(args[2]) {
+							kind, at = "content", w.Pos(x.Pos())
+						}
+					}
+				case f.Pkg() != nil && (f.Pkg().Path() == "strings" || f.Pkg().Path() == "bytes") && f.Name() == "ReplaceAll" && len(args) == 3:
+					if isDot(args[1]) && isEmpty(args[2]) {
+						kind, at = "content", w.Pos(x.Pos())
+					}
+				case f.Pkg() != nil && (f.Pkg().Path() == "strings" || f.Pkg().Path() == "bytes") && f.Name() == "Replace" && len(args) == 4:
+					if n, ok := constIntVal(args[3]); ok && n < 0 && isDot(args[1]) && isEmpty(args[2]) {
+						kind, at = "content", w.Pos(x.Pos())
+					}
+				}
+			case *ssa.BinOp:
+				if x.Op == token.EQL || x.Op == token.NEQ {
+					for _, o := range []ssa.Value{x.X, x.Y} {
+						if k, ok := constIntVal(o); ok && k == '.' {
+							if bt, ok := o.Type().Underlying().(*types.Basic); ok && (bt.Kind() == types.Uint8 || bt.Kind() == types.Int32 || bt.Kind() == types.UntypedRune) {
+								kind, at = "content", w.Pos(x.Pos())
+							}
+						}
+					}
+				}
+			case *ssa.Slice:
+				for _, bnd := range []ssa.Value{x.Low, x.High} {
+					if bnd == nil {
+						continue
+					}
+					if k, ok := constIntVal(bnd); ok && k > 2 {
+						positional = w.Pos(x.Pos())
+					}
+				}
+			}
+		})
+		if kind == "" && positional != "" {
+			return "position", positional
+		}
+		return kind, at
+	}
+	n := 0
+	var bad []string
+	if k, _ := classify(un); k == "content" {
+		n++
+	}
+	seen := map[*ssa.Function]bool{}
+	for _, c := range callsIn(un) {
+		g := c.Common().StaticCallee()
+		if g == nil || seen[g] || g.Pkg == nil || !strings.HasPrefix(g.Pkg.Pkg.Path(), modPath) || len(g.Blocks) == 0 {
+			continue
+		}
+		sig := g.Signature
+		if sig.Params().Len() != 1 || sig.Results().Len() != 1 || !types.Identical(sig.Params().At(0).Type(), sig.Results().At(0).Type()) {
+			continue
+		}
+		seen[g] = true
+		k, at := classify(g)
+		if k == "" {
+			// one level of helpers
+			for _, g2 := range staticCone(g, 1) {
+				if g2 != g {
+					if k2, at2 := classify(g2); k2 != "" && (k == "" || k2 == "content") {
+						k, at = k2, at2
+					}
+				}
+			}
+		}
+		switch k {
+		case "content":
+			n++
+		case "position":
+			bad = append(bad, fmt.Sprintf("%s: %s, which the client applies to the host-name answers, cuts its input at fixed offsets without testing for '.': the server (PrepareHostname) inserts dots only above the label limit, so for the lengths between the two thresholds a payload character is dropped — a silently different response", at, ssaFuncKey(g)))
+		}
+	}
+	sort.Strings(bad)
+	if len(bad) == 0 && n == 0 {
+		r.Undecided(rule, key, w.Pos(un.Pos()), "no recognisable removal of the label dots in the unwrapper (regexp / ReplaceAll on \".\" / per-byte test)")
+		return
+	}
+	r.Check(len(bad) == 0, rule, key, w.Pos(un.Pos()), fmt.Sprintf("%d dot remover(s) applied to host-name answers, each deleting bytes it tested to be '.'", n), strings.Join(bad, "; "))
+}
+
+// c14CloseReleasesCarrierOnEveryPath: R14.10 — Close of a connection object that owns a carrier (a field with a
+// Close method that this Close calls somewhere) calls that carrier's Close on EVERY returning path, except paths
+// on which the object was found closed already. A failed goodbye to the peer is exactly the situation in which
+// the carrier was lost: returning the goodbye's error instead of going on leaves the socket, and the goroutine
+// that polls through it, behind for good — nobody calls Close twice.
+func c14CloseReleasesCarrierOnEveryPath(w *World, r *Report) {
+	rule := "R14.10"
+	n := 0
+	for _, fn := range sortedFuncs(allModuleFuncs(w, w.SSA())) {
+		if fn.Name() != "Close" || fn.Signature.Recv() == nil || fn.Pkg == nil || !strings.HasPrefix(fn.Pkg.Pkg.Path(), modPath+"/internal/streams") || len(fn.Params) == 0 || len(fn.Blocks) == 0 {
+			continue
+		}
+		if _, isPtr := fn.Signature.Recv().Type().(*types.Pointer); !isPtr {
+			continue
+		}
+		recv := fn.Params[0]
+		// carrier close: Close invoked on (a load of) a field of the receiver, directly, through LogClose-like
+		// helpers that close their argument, or in a deferred call
+		fieldOfRecv := func(v ssa.Value) *types.Var {
+			for _, root := range provenance(v, provOpts{}) {
+				u, ok := root.(*ssa.UnOp)
+				if !ok {
+					continue
+				}
+				fa, ok := u.X.(*ssa.FieldAddr)
+				if !ok {
+					continue
+				}
+				for _, r2 := range provenance(fa.X, provOpts{}) {
+					if r2 == ssa.Value(recv) {
+						return fieldVarOf(fa)
+					}
+				}
+			}
+			return nil
+		}
+		closesArg := func(g *ssa.Function) bool {
+			if g == nil || len(g.Params) == 0 || !inModule(g) {
+				return false
+			}
+			found := false
+			for _, c := range callsIn(g) {
+				cc := c.Common()
+				if cc.IsInvoke() && cc.Method.Name() == "Close" {
+					for _, root := range provenance(cc.Value, provOpts{}) {
+						if root == ssa.Value(g.Params[0]) {
+							found = true
+						}
+					}
+				}
+			}
+			return found
+		}
+		carrierClose := func(in ssa.Instruction) *types.Var {
+			c, ok := in.(ssa.CallInstruction)
+			if !ok {
+				return nil
+			}
+			cc := c.Common()
+			if cc.IsInvoke() && cc.Method.Name() == "Close" {
+				return fieldOfRecv(cc.Value)
+			}
+			if g := cc.StaticCallee(); g != nil {
+				if g.Name() == "Close" && g.Signature.Recv() != nil && len(cc.Args) > 0 {
+					if f := fieldOfRecv(cc.Args[0]); f != nil {
+						return f
+					}
+					// the embedded carrier: x.Inner.Close() on the address of a field
+					if fa, ok := cc.Args[0].(*ssa.FieldAddr); ok && fa.X == ssa.Value(recv) {
+						return fieldVarOf(fa)
+					}
+				}
+				if closesArg(g) && len(cc.Args) > 0 {
+					return fieldOfRecv(cc.Args[0])
+				}
+			}
+			return nil
+		}
+		var carrier *types.Var
+		allInstrs(fn, func(in ssa.Instruction) {
+			if f := carrierClose(in); f != nil && carrier == nil {
+				carrier = f
+			}
+		})
+		if carrier == nil {
+			continue
+		}
+		n++
+		key := "method:" + ssaFuncKey(fn) + "|carrier-closed-on-every-path"
+		bad := ""
+		npaths := 0
+		okp := enumPaths(fn, nil, func(in ssa.Instruction) bool { return carrierClose(in) != nil }, nil, func(e pathExit) {
+			if _, isRet := e.Last.(*ssa.Return); !isRet {
+				return
+			}
+			npaths++
+			if len(e.State.Events) > 0 {
+				return
+			}
+			// excused: the object was found closed already on this path
+			for v, t := range e.State.Facts {
+				if !t {
+					continue
+				}
+				switch x := v.(type) {
+				case *ssa.Call:
+					if x.Call.IsInvoke() && x.Call.Method.Name() == "Closed" {
+						return
+					}
+					if f := sCallee(x); f != nil && f.Name() == "Closed" {
+						return
+					}
+				case *ssa.UnOp:
+					if fa, ok := x.X.(*ssa.FieldAddr); ok && fa.X == ssa.Value(recv) {
+						if bt, ok := fieldVarOf(fa).Type().Underlying().(*types.Basic); ok && bt.Kind() == types.Bool {
+							return
+						}
+					}
+				case *ssa.BinOp:
+					// carrier == nil: nothing to close
+					if y, eq, ok := nilTest(x); ok && eq && fieldOfRecv(y) == carrier {
+						return
+					}
+				}
+			}
+			if bad == "" {
+				bad = fmt.Sprintf("%s: a path through %s returns without having closed the carrier (field %s) although the object was not found closed: after a failed goodbye the socket and whatever polls through it stay behind — nobody calls Close a second time", w.Pos(e.Last.Pos()), ssaFuncKey(fn), carrier.Name())
+			}
+		})
+		if !okp {
+			r.Undecided(rule, key, w.Pos(fn.Pos()), "path budget exceeded")
+			continue
+		}
+		r.Check(bad == "", rule, key, w.Pos(fn.Pos()), fmt.Sprintf("%d returning path(s), each closes the carrier %s or found the object closed", npaths, carrier.Name()), bad)
+	}
+	if n == 0 {
+		r.Undecided(rule, "close:none", "-", "no Close method that closes a carrier field found under internal/streams")
+	}
 }
